@@ -180,6 +180,17 @@ func Main(c *Check, tb *testing.T) int {
 		return replayMain(c, rp, tb)
 	}
 	fmt.Printf("VERIF_SEED=%d property=%s tier=%s\n", master, c.ID, tier)
+	if ts := os.Getenv("VERIF_TRACE"); ts != "" {
+		// debugging aid: execute one run index and print its event log
+		i, _ := strconv.Atoi(ts)
+		seed := SubSeed(master, c.ID, i)
+		res, run := execRun(c, tier, i, seed, NewTape(seed), "", true, tb)
+		for _, l := range run.Trace {
+			fmt.Println("  |", l)
+		}
+		fmt.Printf("run %d digest=%s violations=%d tape_len=%d %s\n", i, res.digest, len(res.viol), len(res.tape), res.crashed)
+		return ExitOK
+	}
 	n := c.Runs(tier)
 	if v := envInt("VERIF_RUNS", 0); v > 0 {
 		n = v
@@ -305,6 +316,9 @@ func Main(c *Check, tb *testing.T) int {
 			continue
 		}
 		newViolations++
+		if newViolations > 3 {
+			os.Setenv("VERIF_SHRINK_EXEC", "1") // many classes at once: minimise only the first three
+		}
 		path, code := reportViolation(c, tier, master, e.v, e.res, tb)
 		if code == ExitHarness {
 			return ExitHarness
@@ -389,7 +403,7 @@ func shortHash(s string) string {
 // shrink minimises a failing tape while the same (property, class, item) persists.
 func shrink(c *Check, tier string, idx int, seed uint64, tape []uint64, v Violation, tb *testing.T) ([]uint64, int) {
 	execs := 0
-	deadline := time.Now().Add(time.Duration(envInt("VERIF_SHRINK_S", 45)) * time.Second)
+	deadline := time.Now().Add(time.Duration(envInt("VERIF_SHRINK_S", 25)) * time.Second)
 	maxExec := envInt("VERIF_SHRINK_EXEC", 1500)
 	fails := func(cand []uint64) bool {
 		if execs >= maxExec || time.Now().After(deadline) {
